@@ -19,7 +19,11 @@ RULE = ('operation sequences over {add_variable, attribute set, item set by name
         'ndarrays of shapes (), (1,), (n,), (n+-1,), (1,n), (n,1), (2,n), (r,n) and dtypes float/int/bool/str/object. '
         'Non-trivial = the sequence contains at least one accepted and one rejected operation; distinct by hash of the case.')
 TRUSTED = ['harness/container_common.py (case encoding, real-object driver, OCaml driver text, extraction via ExtrOcamlBasic/ExtrOcamlString)',
-           'difflib.get_close_matches is an oracle: its answer is recorded from the run and handed to the model']
+           'difflib.get_close_matches is an oracle: its answer is recorded from the run and handed to the model',
+           'K is STRICTER than the oracle (a difference there is reported as no-failing-input-found, not as a property failure): it compares '
+           'the order of _attributes, the set of attribute names, which of ValueError / TypeError NumPy raises for a sequence into one cell, '
+           'and the near-miss candidate computed with difflib cutoff 0.1; the observation reads the private layout (__dict__: "_" + name, '
+           '_attributes, _strict) with a fallback to the public item access - a change of that layout needs the harness to follow']
 ASSUMPTIONS = ['SCOPE: the object keeps its series and its own bookkeeping in one __dict__; an attribute assignment / add_attribute that targets '
                'the bookkeeping (span, index, a name starting with "_", for models names / dtype) is accepted by the code - also under '
                'strict=True - and then breaks the invariants (c.span = [1]; m.names = [...]; m.dtype = int; c._X = 5). The property lists '
